@@ -31,6 +31,7 @@ type bpCase struct {
 	dh       int    // proof height = block height + dh
 	hashMode string // match | other
 	seed     string // ok | otherprev | absent | forged
+	idShape  int    // shape of the member ids (cluster.go: clusterIdShape)
 	prev     string // the previous proof handed to the call: "" (the one the seed signature was made for) | other | nil
 	soft     bool
 	block    string // match | otherhash | otherheight | nil
@@ -43,14 +44,16 @@ func (c bpCase) desc() obj {
 	for _, s := range c.signers {
 		sg = append(sg, obj{"idx": s.idx, "status": s.status})
 	}
-	return obj{"weights": c.weights, "signers": sg, "ht": int(c.ht), "inst": int(c.inst), "dh": c.dh, "hash": c.hashMode, "seed": c.seed, "prev": c.prev,
+	return obj{"weights": c.weights, "signers": sg, "ht": int(c.ht), "inst": int(c.inst), "dh": c.dh, "hash": c.hashMode, "seed": c.seed, "prev": c.prev, "idshape": c.idShape,
 		"soft": c.soft, "block": c.block, "mangle": c.mangle, "at": c.mangleAt}
 }
 
 const bpHeight = 5
 
 func runBpCase(out *ndjson, c bpCase) {
+	clusterIdShape = c.idShape
 	cl := newCluster(c.weights, nil, 1, false)
+	clusterIdShape = 0
 	defer cl.close()
 	adv := newAdversary(cl)
 	for i := 0; i < cl.nMembers; i++ {
@@ -219,8 +222,12 @@ func cmdBlockProof(args []string) int {
 	}
 	grids := [][]uint64{{1, 1, 1, 1}, {1, 1, 2, 3}, {1, 1, 1, 1, 3}, {2, 2, 2, 2, 2, 2, 2}, {5, 1, 1, 1}, {0, 0, 0, 0}, {0, 1, 1, 1, 0}}
 	statuses := []string{"type", "view", "hash", "inst", "height", "forged"}
+	shapeOf := map[string]int{} // systematic part: the committees take turns in the three id shapes
+	for g, ws := range grids {
+		shapeOf[fmt.Sprint(ws)] = g % 3
+	}
 	base := func(ws []uint64, signers []int) bpCase {
-		c := bpCase{weights: ws, ht: protocol.LEAN_HELIX_COMMIT, inst: clusterInstance, hashMode: "match", seed: "ok", block: "match"}
+		c := bpCase{weights: ws, ht: protocol.LEAN_HELIX_COMMIT, inst: clusterInstance, hashMode: "match", seed: "ok", block: "match", idShape: shapeOf[fmt.Sprint(ws)]}
 		for _, i := range signers {
 			c.signers = append(c.signers, bpSigner{i, "ok"})
 		}
@@ -299,7 +306,7 @@ func cmdBlockProof(args []string) int {
 	for i := 0; i < *nRand; i++ {
 		ws := grids[rnd.Intn(len(grids))]
 		nm := len(ws)
-		c := bpCase{weights: ws, ht: protocol.LEAN_HELIX_COMMIT, inst: clusterInstance, hashMode: "match", seed: "ok", block: "match", soft: rnd.Intn(2) == 0}
+		c := bpCase{weights: ws, ht: protocol.LEAN_HELIX_COMMIT, inst: clusterInstance, hashMode: "match", seed: "ok", block: "match", soft: rnd.Intn(2) == 0, idShape: rnd.Intn(3)}
 		for j := 0; j < nm; j++ {
 			if rnd.Intn(4) != 0 {
 				st := "ok"
@@ -354,7 +361,7 @@ func cmdBlockProof(args []string) int {
 
 func caseFromDesc(d map[string]interface{}) bpCase {
 	c := bpCase{ht: protocol.MessageType(int(d["ht"].(float64))), inst: primitives.InstanceId(int(d["inst"].(float64))), dh: int(d["dh"].(float64)),
-		hashMode: d["hash"].(string), seed: d["seed"].(string), prev: strOr(d["prev"]), soft: d["soft"].(bool), block: d["block"].(string), mangle: d["mangle"].(string), mangleAt: int(d["at"].(float64))}
+		hashMode: d["hash"].(string), seed: d["seed"].(string), prev: strOr(d["prev"]), idShape: intOr(d["idshape"]), soft: d["soft"].(bool), block: d["block"].(string), mangle: d["mangle"].(string), mangleAt: int(d["at"].(float64))}
 	for _, w := range d["weights"].([]interface{}) {
 		c.weights = append(c.weights, uint64(w.(float64)))
 	}
@@ -370,4 +377,11 @@ func strOr(v interface{}) string {
 		return s
 	}
 	return ""
+}
+
+func intOr(v interface{}) int {
+	if f, ok := v.(float64); ok {
+		return int(f)
+	}
+	return 0
 }
